@@ -328,6 +328,11 @@ def run_property(pid, modname, tier, seed, jobs, level="exploration", assumption
             known_hit[k] = known_hit.get(k, 0) + v
             known_hit.setdefault("_msg_" + k, m.get("known_msg_" + k, ""))
 
+    health = getattr(mod, "health", None)
+    if health and not errors:
+        for msg in health(merged) or []:
+            errors.append(("health", msg))
+
     # evidence
     evaluations = sum(m["evaluations"] for m in merged.values())
     distinct = sum(len(m["nontrivial"]) for m in merged.values())
